@@ -53,6 +53,8 @@ def run_case(scn: Scenario, case: dict) -> Outcome:
 
 
 _SCENARIOS: dict[str, Scenario] = {}
+#: violation classes of recorded known findings (set by the CLI before the pool forks)
+KNOWN_CLASSES: set[str] = set()
 
 
 def _chunk_worker(args: tuple) -> dict:
@@ -105,7 +107,9 @@ def _chunk_worker(args: tuple) -> dict:
             summ["digests"].append((idx, out.digest))
         if idx < MAX_SAMPLES:
             summ["samples"].append({"case_index": idx, "case": case, "trace_head": out.trace[:12], "digest": out.digest})
-        for cls, msg in out.violations[:1]:
+        # one class per case: the first that is not a recorded known finding, else the first
+        pick = [v for v in out.violations if v[0] not in KNOWN_CLASSES][:1] or out.violations[:1]
+        for cls, msg in pick:
             ent = summ["viol"].get(cls)
             if ent is None:
                 summ["viol"][cls] = [idx, 1, msg]
@@ -206,7 +210,8 @@ def run_scenarios(scenarios: list[Scenario], verif_seed: int, tier: str, count_s
 
 def violation_classes(scn: Scenario, case: dict) -> list[str]:
     out = run_case(scn, case)
-    return [c for c, _ in out.violations]
+    cls = [c for c, _ in out.violations]
+    return [c for c in cls if c not in KNOWN_CLASSES] + [c for c in cls if c in KNOWN_CLASSES]
 
 
 def minimise(scn: Scenario, case: dict, cls: str, max_execs: int = 3000, max_seconds: float = 30.0) -> tuple[dict, int]:
